@@ -151,7 +151,11 @@ class SuccessionDiagram:
 
     def __getstate__(self) -> SuccessionDiagramState:
         return {
-            "network_rules": self.network.to_aeon(),
+            # The network object itself is stored (it supports pickling). A textual
+            # format (e.g. `.aeon`) would lose input variables that do not regulate
+            # anything, and it would reorder the variables, which invalidates the
+            # keys stored in `node_indices`.
+            "network": self.network,
             "petri_net": self.petri_net,
             "nfvs": self.nfvs,
             "dag": self.dag,
@@ -160,8 +164,13 @@ class SuccessionDiagram:
         }
 
     def __setstate__(self, state: SuccessionDiagramState):
+        if "network" in state:
+            network = state["network"]
+        else:
+            # Data saved by older versions stores the rules as an `.aeon` string.
+            network = BooleanNetwork.from_aeon(state["network_rules"])  # type: ignore
         # In theory, the network should be cleaned-up at this point, but just in case...
-        self.network = cleanup_network(BooleanNetwork.from_aeon(state["network_rules"]))
+        self.network = cleanup_network(network)
         self.symbolic = AsynchronousGraph(self.network)
         self.petri_net = state["petri_net"]
         self.nfvs = state["nfvs"]
